@@ -97,6 +97,11 @@ TSearchEnd ==
                       /\ Diag("C17", cur.mate, [kind |-> "forced mate avoiding the recorded position not reported", pos |-> cur.fen, depth |-> cur.depth, seed |-> cur.seed, workers |-> cur.workers, tag |-> cur.tag])
                       /\ (IF ~(cur.mate /\ cur.firstOk) THEN TRUE ELSE
                             Diag("C17", Ident(Apply(pos, cur.first)) \notin cur.hist, [kind |-> "search chose the move into a recorded position", pos |-> cur.fen, mv |-> Lan(cur.first), seed |-> cur.seed, workers |-> cur.workers, tag |-> cur.tag])))))
+       \* C17 on any root (no tablebase needed): a line whose first move enters a recorded position is a draw, so a winning
+       \* terminal evaluation cannot come with such a first move (single worker: evaluation and move come from the same worker)
+       /\ (IF ~(cur.dom /\ e.status = "ok" /\ cur.hist # {} /\ cur.mate /\ cur.firstOk /\ ~cur.cancelled /\ cur.workers = 1) THEN TRUE ELSE
+             Diag("C17", Ident(Apply(pos, cur.first)) \notin cur.hist,
+                  [kind |-> "winning evaluation reported with a first move into a recorded position", pos |-> cur.fen, mv |-> Lan(cur.first), seed |-> cur.seed, workers |-> cur.workers, tag |-> cur.tag]))
        /\ cur' = [cur EXCEPT !.active = FALSE]
   /\ UNCHANGED pos
 
